@@ -609,6 +609,24 @@ def ckk_generator_yields(presented, numbins):
 
 # ------------------------------------------------------------------ purity (C15)
 
+def set_value(presented, index, value, den=1):
+    """What a CALLER does when it changes one value of an input object it keeps using: a list / array element, a dict value, or the
+    table behind its value function.  The item's name stays what it was; the checker's view of the values is updated alongside."""
+    exact = exact_values([value], den)[0]
+    real = value if den == 1 else value / den
+    items = presented.items
+    name = presented.names[index]
+    if presented.value_of_name is None:              # list / array: the items are the values
+        items[index] = real
+        presented.names[index] = exact
+        return
+    table = items if isinstance(items, dict) else presented.valueof.__defaults__[0]
+    key = list(table.keys())[index]
+    old = table[key]
+    table[key] = type(old)(real) if isinstance(old, np.generic) else real
+    presented.value_of_name[name] = exact
+
+
 def snapshot(presented):
     """A deep, comparable snapshot of the arguments of a call (items and, for names+valueof, the value table)."""
     items = presented.items
